@@ -1,5 +1,5 @@
 (* C01 - Serialized arrays decode to exactly the input records. *)
-From Verif Require Import Builder Builder_proofs Bits_proofs Refine_proofs SerializerTables SerTablesSpec FloatOfInt FloatOfInt_proofs.
+From Verif Require Import Builder Builder_proofs Bits_proofs Refine_proofs SerializerTables SerTablesSpec FloatOfInt FloatOfInt_proofs FloatRoutes_proofs.
 
 (* Full-strength statement (kept visible). It is evaluated on every case of the check as the
    specification oracle RunC01.oracle (decode of the implementation's arrays = interp of the rows,
@@ -46,6 +46,16 @@ Theorem C01_method_tables_match_model :
   model_agrees "IntBuilder"%string (BdPrim (PInt I64) None []) = true /\
   model_agrees "Utf8Builder"%string (BdUtf8 BUtf8 None [0%Z] []) = true.
 Proof. repeat split; vm_compute; reflexivity. Qed.
+
+(* the casts written in float_builder.rs / float_impls.rs are the ones the model takes: one direct cast per method (regenerated from
+   the source on every run; a detour through the other width, or a changed expression, changes the table) *)
+Theorem C01_float_casts_table : float_casts_ok = true.
+Proof. vm_compute. reflexivity. Qed.
+
+(* ... and the float builders accept exactly the scalar kinds the model accepts *)
+Theorem C01_float_method_tables_match_model :
+  model_agrees "FloatBuilder<f32>"%string (BdPrim PF32 None []) = true /\ model_agrees "FloatBuilder<f64>"%string (BdPrim PF64 None []) = true.
+Proof. split; vm_compute; reflexivity. Qed.
 
 (* one push: if the builder accepts the value, the value is in the documented mapping, and the
    logical content of the arrays grows by exactly the denoted value; no earlier row changes *)
@@ -205,8 +215,32 @@ Example C01_float_cast_example :
   /\ f64_of_f32 1 = 3936146074321813504%Z /\ f64_of_f32 8388607 = 4039728864677593088%Z.
 Proof. vm_compute. repeat split; reflexivity. Qed.
 
+(* the two roundings do not commute: an integer just above a tie of the f32 grid goes UP when cast once, and DOWN when it is first cast
+   to f64 (which lands it on the tie) and then to f32 - the model separates the two routes (seed C01m_1 took the second) *)
+Example C01_cast_through_f64_differs :
+  f32_of_int (2 ^ 60 + 2 ^ 36 + 1) = 1568669697%Z /\ f32_of_f64 (f64_of_int (2 ^ 60 + 2 ^ 36 + 1)) = 1568669696%Z
+  /\ f32_of_int (2 ^ 63 + 2 ^ 39 + 1) = 1593835521%Z /\ f32_of_f64 (f64_of_int (2 ^ 63 + 2 ^ 39 + 1)) = 1593835520%Z.
+Proof. vm_compute. repeat split; reflexivity. Qed.
+
+(* ... and they DO agree whenever the integer fits the f64 significand: for every integer of at most 53 bits - all 8, 16 and 32 bit
+   widths, every char - casting to f64 first and then to f32 stores the same word as casting once. The window in which a detour through
+   f64 can alter a Float32 column is exactly the 64-bit integers beyond 2^53. *)
+Theorem C01_cast_through_f64_agrees_up_to_53_bits : forall z, z <> 0%Z -> (Z.log2 (Z.abs z) < 53)%Z -> f32_of_f64 (f64_of_int z) = f32_of_int z.
+Proof. exact cast_through_f64. Qed.
+
+Theorem C01_cast_through_f64_agrees_for_32_bit : forall z, (- 2 ^ 32 < z < 2 ^ 32)%Z -> f32_of_f64 (f64_of_int z) = f32_of_int z.
+Proof. exact cast_through_f64_32bit. Qed.
+
+(* one rounding function serves every cast of the model: the integer cast is round_scaled applied to |z| * 2^0, encoded like any other *)
+Theorem C01_int_cast_is_the_same_rounding : forall p bias width z, (1 < p)%Z -> (1 <= bias)%Z -> z <> 0%Z ->
+  (Z.log2 (Z.abs z) + bias + 1 < 2 ^ (width - p))%Z ->
+  forall q qe, round_scaled p (1 - bias - (p - 1)) (Z.abs z) 0 = (q, qe) ->
+  float_of_int p bias width z = ((if z <? 0 then 2 ^ (width - 1) else 0) + encode_mag p bias width q qe)%Z.
+Proof. exact int_cast_is_round_scaled. Qed.
+
 Print Assumptions C01_float_cast_correctly_rounded.
 Print Assumptions C01_float_cast_in_range.
+Print Assumptions C01_cast_through_f64_agrees_up_to_53_bits.
 
 Print Assumptions C01_int_to_float_correctly_rounded.
 Print Assumptions C01_int_to_float_in_range.
